@@ -556,6 +556,8 @@ func c18Corr(c *Ctx) {
 	c.caseSB.WriteString("From Coq Require Import List String ZArith NArith Bool.\nImport ListNotations.\nFrom DV Require Import Model.ObjGraph Model.GraphCases.\nLocal Open Scope string_scope.\nLocal Open Scope list_scope.\n")
 	c.caseSB.WriteString("Definition gcases : list gcase := [\n" + strings.Join(cases, ";\n") + "].\n")
 	c.caseSB.WriteString("Definition mismatch_graph := Eval vm_compute in bad_gcases gcases.\nPrint mismatch_graph.\n")
+	// every real source graph meets the hypothesis of C18_memoised_copy_is_accepted
+	c.caseSB.WriteString("Definition mismatch_graph_wf := Eval vm_compute in bad_wf gcases.\nPrint mismatch_graph_wf.\n")
 }
 
 func init() {
